@@ -1606,7 +1606,7 @@ namespace link_layer {
                 defered_conn_event_counter_ = read_16bit( &body[ 6 ] );
                 commit = false;
 
-                if ( static_cast< std::uint16_t >( defered_conn_event_counter_ - this->connection_event_counter() ) & 0x8000 )
+                if ( instant_passed( defered_conn_event_counter_ ) )
                 {
                     disconnecting_reason_ = connection_instant_passed;
                     result = ll_result::disconnect;
